@@ -355,8 +355,9 @@ Example C06_ex_headers :
     Err (ELen (mkLenError 32 23 LsSlice LyIpv4Packet 4)) /\
   (exists r, PacketHeaders.from_ip_slice ex_ip = Ok r /\ PacketHeaders.from_ether_type ET_IPV4 ex_ip = Ok r).
 Proof.
-  split; [eexists; repeat split; vm_compute; reflexivity|].
-  split; [eexists; repeat split; vm_compute; reflexivity|].
+  (* (proof script only: `repeat split` on `_ = Ok ?r` closed it by lazy conversion, 25 s) *)
+  split; [eexists; split; [vm_compute; reflexivity|split; vm_compute; reflexivity]|].
+  split; [eexists; split; [vm_compute; reflexivity|vm_compute; reflexivity]|].
   split; [vm_compute; reflexivity|]. split; [vm_compute; reflexivity|].
   eexists; split; vm_compute; reflexivity.
 Qed.
@@ -395,6 +396,342 @@ Example C06_ex_lax :
   (exists q, LaxSlicedPacket.from_ether_type ET_IPV4 [69] = Ok q /\
      lsp_stop_err q = Some (ELen (mkLenError 20 1 LsSlice LyIpv4Header 0), LyIpHeader)).
 Proof.
-  split; [do 2 eexists; repeat split; vm_compute; reflexivity|].
+  (* (proof script only: no `repeat split` on `_ = Ok ?p`, see C06_ex_headers) *)
+  split; [do 2 eexists; split; [vm_compute; reflexivity|split; [vm_compute; reflexivity|split; vm_compute; reflexivity]]|].
   split; [vm_compute; reflexivity|]. eexists; split; vm_compute; reflexivity.
 Qed.
+
+(* ==== round 3 (extend-c06): LaxPacketHeaders family, the _lax struct copies of the IP
+   boundary, from_linux_sll as a starting point ======================================= *)
+From EP Require Import Parse.HdrLaxModel Equiv.HdrLaxShift Equiv.SllStart Equiv.ModelLaxIp Equiv.LaxIpCopies.
+From EP Require Parse.LaxView Parse.HdrView Parse.HdrLaxCut Parse.HdrLaxProofs2.
+
+(* ---- group 1, lax struct family (LaxPacketHeaders) ---------------------------------- *)
+(* Ethernet II header present: LaxPacketHeaders::from_ethernet = from_ether_type on the
+   bytes behind it, as VALUES of the model (Parse/HdrLaxModel.v; a decoded header is the
+   sub-slice it was decoded from).  lh_behind 14 link r (Equiv/HdrLaxShift.v) = r with
+   every decoded header (link extensions, net, transport) and the payload slice 14 bytes
+   later, the layer_start_offset of a Len stop error 14 later -- whatever its layer:
+   VlanHeader, MacsecHeader, IpHeader, Ipv4Header, Ipv6Header, IpAuthHeader, the IPv6
+   extension layers, Arp, Icmpv4, Icmpv6, UdpHeader, TcpHeader -- and required_len, len,
+   len_source, layer tag, content stop errors, incomplete flags, protocol numbers all
+   equal; the decoded Ethernet II header as link.  Exact equality, every byte string. *)
+Theorem C06_laxheaders_ethernet_eq_ethertype : forall bs a b,
+  rd bs 12 = Some a -> rd bs 13 = Some b ->
+  LaxPacketHeaders.from_ethernet bs =
+  lh_behind 14 (HlEthernet2 (0, take 14 bs)) (LaxPacketHeaders.from_ether_type (be16 a b) (drop 14 bs)).
+Proof. exact laxheaders_ethernet_eq_ethertype. Qed.
+Print Assumptions C06_laxheaders_ethernet_eq_ethertype.
+
+Theorem C06_laxheaders_ethernet_short : forall bs, len bs < 14 ->
+  LaxPacketHeaders.from_ethernet bs = Err (ELen (mkLenError 14 (len bs) LsSlice LyEthernet2Header 0)).
+Proof. exact laxheaders_ethernet_short. Qed.
+Print Assumptions C06_laxheaders_ethernet_short.
+
+(* pointer-shift equivariance of from_ether_type itself: any k, any ether type.  sh_lh k
+   moves every decoded header and the payload slice; the stop error is untouched (its
+   offsets count from the start of the slice the function was given) *)
+Theorem C06_laxheaders_ethertype_shift : forall k et s,
+  LaxPacketHeaders.from_ether_type_slice et (sh k s) =
+  rmap (sh_lh k) (LaxPacketHeaders.from_ether_type_slice et s).
+Proof. exact lh_from_ether_type_slice_sh. Qed.
+Print Assumptions C06_laxheaders_ethertype_shift.
+
+(* ether type IPv4 or IPv6 (whatever the version nibble: F10) = from_ip, except that the
+   first header's error -- which from_ip RETURNS -- is kept as stop error of layer
+   IpHeader beside the untouched start value (payload = the ether payload).  Exact
+   equality, no exclusion (F11 does not reach this pair: both sides call the same
+   IpHeaders::from_slice_lax). *)
+Theorem C06_laxheaders_ethertype_eq_ip : forall et bs, et = ET_IPV4 \/ et = ET_IPV6 ->
+  LaxPacketHeaders.from_ether_type et bs = lh_ip_as_ether_type et bs (LaxPacketHeaders.from_ip bs).
+Proof. exact laxheaders_ethertype_eq_ip. Qed.
+Print Assumptions C06_laxheaders_ethertype_eq_ip.
+
+Example C06_ex_laxheaders :
+  match LaxPacketHeaders.from_ethernet (firstn 41 ex_pkt),
+        LaxPacketHeaders.from_ether_type 33024 (drop 14 (firstn 41 ex_pkt)) with
+  | Ok p, Ok q =>
+     lh_exts p = [HxVlan (14, [0; 5; 8; 0])] /\ lh_exts q = [HxVlan (0, [0; 5; 8; 0])] /\
+     lh_stop p = Some (ELen (mkLenError 8 3 LsSlice LyUdpHeader 38), LyUdpHeader) /\
+     lh_stop q = Some (ELen (mkLenError 8 3 LsSlice LyUdpHeader 24), LyUdpHeader)
+  | _, _ => False
+  end /\
+  LaxPacketHeaders.from_ip [69] = Err (ELen (mkLenError 20 1 LsSlice LyIpv4Header 0)) /\
+  LaxPacketHeaders.from_ether_type ET_IPV4 [69] =
+    Ok (mkLH None [] None None (LHpEther (mkLaxEp false 2048 LsSlice (0, [69])))
+             (Some (ELen (mkLenError 20 1 LsSlice LyIpv4Header 0), LyIpHeader))) /\
+  match LaxPacketHeaders.from_ip ex_ip, LaxPacketHeaders.from_ether_type ET_IPV4 ex_ip with
+  | Ok p, Ok q => p = q /\ lh_transport q = Some (HtUdp (24, [0; 1; 0; 2; 0; 8; 0; 0]))
+  | _, _ => False
+  end.
+Proof. vm_compute. repeat split; reflexivity. Qed.
+
+(* ---- group 2, the lax struct trio ----------------------------------------------------- *)
+(* IpHeaders::from_slice_lax = the copy its first nibble selects (Equiv/ModelLaxIp.v:
+   from_ipv4_slice_lax with its bare ip_auth stop error tagged IpAuthHeader,
+   from_ipv6_slice_lax as is; anything else: UnsupportedIpVersion).  PLAIN equality --
+   header, payload slice, incomplete flag, length source, stop error, first-header error
+   -- for every pointer and every non-empty byte string; no F11-like exclusion (the
+   dispatching copy checks the 20 fixed bytes before the IHL, like Ipv4Header::from_slice). *)
+Theorem C06_dispatch_eq_specific_headers_lax : forall o b rest,
+  LaxIpHeaders.from_slice_lax (o, b :: rest) = lax_ip_headers_specific (o, b :: rest) b.
+Proof. exact lax_ip_headers_dispatch. Qed.
+Print Assumptions C06_dispatch_eq_specific_headers_lax.
+
+(* the lax boundary, slice family vs struct family: C04's theorem (Parse/HdrLaxProofs2.v
+   lax_ip_agree = C04_lax_ip_headers_agree_cut), cited here because it is the second half
+   of "the twelve copies agree": IpHeaders::from_slice_lax against LaxIpSlice::from_slice
+   cut at the first refilled IPv6 extension header (C04's documented exception) -- same
+   payload descriptor, the struct is to_header() of the slices, same stop error, same
+   first-header error; outside the F11 class (nibble 4 and fewer than 20 bytes). *)
+Theorem C06_lax_ip_boundary_slice_eq_struct : forall s, bytes_ok (snd s) ->
+  (forall b0, rd (snd s) 0 = Some b0 -> N.shiftr b0 4 = 4 -> 20 <= s_len s) ->
+  Parse.HdrLaxProofs2.lipd_rel s (LaxIpHeaders.from_slice_lax s) (Parse.HdrLaxCut.LaxCut.ip_from_slice true s).
+Proof. exact Parse.HdrLaxProofs2.lax_ip_agree. Qed.
+Print Assumptions C06_lax_ip_boundary_slice_eq_struct.
+
+(* IPv4, total length 44 announced, 36 bytes present, AH cut short: all copies say
+   incomplete / Slice / stop error Len(24, 16, Slice, IpAuthHeader, 20);
+   total_len = header_len: empty payload, source Ipv4HeaderTotalLen *)
+Definition ex_ip4_ah : bytes :=
+  [69;0;0;44; 0;0;0;0; 64;51;0;0; 1;2;3;4; 5;6;7;8;  17;4;0;0;0;0;0;1;0;0;0;2; 1;1;1;1].
+Example C06_ex_lax_copies :
+  match LaxIpHeaders.from_slice_lax (0, ex_ip4_ah), LaxIpHeadersSpecific.from_ipv4_slice_lax (0, ex_ip4_ah) with
+  | Ok (h, p, st), Ok (h', p', st') =>
+      h = h' /\ p = p' /\ lipp_incomplete p = true /\ lipp_src p = LsSlice /\
+      st = Some (ELen (mkLenError 24 16 LsSlice LyIpAuthHeader 20), LyIpAuthHeader) /\
+      st' = Some (ELen (mkLenError 24 16 LsSlice LyIpAuthHeader 20))
+  | _, _ => False
+  end /\
+  match LaxIpHeadersSpecific.from_ipv4_slice_lax (0, [69;0;0;20; 0;0;0;0; 64;17;0;0; 1;2;3;4; 5;6;7;8; 9;9]) with
+  | Ok (_, p, st) => p = mkLaxIpp false 17 false LsIpv4HeaderTotalLen (20, []) /\ st = None
+  | _ => False
+  end /\
+  LaxIpHeadersSpecific.from_ipv4_slice_lax (0, [96]) = Err (ELen (mkLenError 20 1 LsSlice LyIpv4Header 0)) /\
+  LaxIpHeaders.from_slice_lax (0, [96]) = Err (ELen (mkLenError 40 1 LsSlice LyIpv6Header 0)).
+Proof. vm_compute. repeat split; reflexivity. Qed.
+
+(* ---- group 1, Linux SLL header as starting point ---------------------------------------- *)
+(* sll_head bs (Equiv/SllStart.v) reads the first 16 bytes: fewer than 16 (SllShort);
+   packet type > 7 or unsupported ARP hardware id (SllReject, with the content error);
+   valid with a protocol type that is not an ether type -- netlink, GRE, ignored, Linux
+   non-standard ether type -- (SllOther); valid with ether type et (SllEther et).
+   SlicedPacket::from_linux_sll: in the last case = from_ether_type(et) on the bytes behind
+   the header, every window and every error offset 16 later, link layer aside (same
+   canonicalisation as C06_ethernet_eq_ethertype); otherwise the header's length error /
+   content error / a packet with only the link layer. *)
+Theorem C06_sll_start_sliced : forall bs,
+  match sll_head bs with
+  | SllShort =>
+      SlicedPacket.from_linux_sll bs = Err (ELen (mkLenError 16 (len bs) LsSlice LyLinuxSllHeader 0))
+  | SllReject c => SlicedPacket.from_linux_sll bs = Err (EContent c)
+  | SllOther pt =>
+      SlicedPacket.from_linux_sll bs =
+      Ok (mkSliced (Some (LkLinuxSll (0, take 16 bs) (0, bs))) [] None None)
+  | SllEther et =>
+      nolink (vres_of (SlicedPacket.from_linux_sll bs)) =
+      shift_vres 16 (nolink (vres_of (SlicedPacket.from_ether_type et (drop 16 bs))))
+  end.
+Proof. exact sll_start_sliced. Qed.
+Print Assumptions C06_sll_start_sliced.
+
+(* LaxPacketHeaders::from_linux_sll: = lh_behind 16 of from_ether_type(et) behind the
+   header (as C06_laxheaders_ethernet_eq_ethertype, with 16); not an ether type: link +
+   the LinuxSll payload (protocol type, bytes behind the header), nothing else *)
+Theorem C06_sll_start_laxheaders : forall bs,
+  match sll_head bs with
+  | SllShort =>
+      LaxPacketHeaders.from_linux_sll bs = Err (ELen (mkLenError 16 (len bs) LsSlice LyLinuxSllHeader 0))
+  | SllReject c => LaxPacketHeaders.from_linux_sll bs = Err (EContent c)
+  | SllOther pt =>
+      LaxPacketHeaders.from_linux_sll bs =
+      Ok (mkLH (Some (HlLinuxSll (0, take 16 bs))) [] None None (LHpLinuxSll pt (16, drop 16 bs)) None)
+  | SllEther et =>
+      LaxPacketHeaders.from_linux_sll bs =
+      lh_behind 16 (HlLinuxSll (0, take 16 bs)) (LaxPacketHeaders.from_ether_type et (drop 16 bs))
+  end.
+Proof. exact sll_start_laxheaders. Qed.
+Print Assumptions C06_sll_start_laxheaders.
+
+(* SLL / IPv4 / UDP cut inside the UDP header; all four classes occur *)
+Definition ex_sll : bytes := [0;0; 0;1; 0;6; 1;2;3;4;5;6;0;0; 8;0] ++ drop 18 ex_pkt.
+Example C06_ex_sll :
+  sll_head ex_sll = SllEther 2048 /\
+  vres_of (SlicedPacket.from_linux_sll (firstn 39 ex_sll)) =
+    VErr (ELen (mkLenError 32 23 LsSlice LyIpv4Packet 16)) /\
+  vres_of (SlicedPacket.from_ether_type 2048 (drop 16 (firstn 39 ex_sll))) =
+    VErr (ELen (mkLenError 32 23 LsSlice LyIpv4Packet 0)) /\
+  match LaxPacketHeaders.from_linux_sll (firstn 39 ex_sll),
+        LaxPacketHeaders.from_ether_type 2048 (drop 16 (firstn 39 ex_sll)) with
+  | Ok p, Ok q =>
+     lh_stop p = Some (ELen (mkLenError 8 3 LsSlice LyUdpHeader 36), LyUdpHeader) /\
+     lh_stop q = Some (ELen (mkLenError 8 3 LsSlice LyUdpHeader 20), LyUdpHeader)
+  | _, _ => False
+  end /\
+  match vres_of (SlicedPacket.from_linux_sll ex_sll) with
+  | VOk p => v_transport p = Some (VUdp (36, 12))
+  | _ => False
+  end /\
+  sll_head [0;0; 3;56; 0;6; 1;2;3;4;5;6;0;0; 0;16; 1;2;3] = SllOther (SllNetlink 16) /\
+  sll_head [0;9; 0;1; 0;6; 1;2;3;4;5;6;0;0; 8;0] = SllReject (CeLinuxSllPacketType 9) /\
+  sll_head [0;0; 0;2; 0;6; 1;2;3;4;5;6;0;0; 8;0] = SllReject (CeLinuxSllArpHardwareId 2) /\
+  sll_head [0;0; 0;1; 0;6; 1;2;3;4;5;6;0;0; 0;4] = SllOther (SllNonstandard 4) /\
+  sll_head [0;0; 0;1] = SllShort.
+Proof. vm_compute. repeat split; reflexivity. Qed.
+
+From EP Require Roundtrip.Eth Roundtrip.Vlan Roundtrip.Sll Roundtrip.Macsec Roundtrip.Arp Roundtrip.Udp Roundtrip.RawExt
+  Roundtrip.Auth Roundtrip.Exts4 Roundtrip.Icmp4 Roundtrip.Icmp6 Equiv.ReadValuesLink Equiv.ReadValuesNet
+  ExtChain.Model ExtChain.ReadModel ExtChain.ReadProofs.
+
+(* ---- group 3, header values: the remaining header types ----------------------------------- *)
+(* As C06_read_value_tcp / _ipv4 / _frag / _ipv6 above, for the header types whose field-level
+   decode models C08 has added since (Roundtrip/{Eth,Vlan,Sll,Macsec,Arp,Auth,RawExt,Udp,Icmp4,
+   Icmp6,Exts4}.v: `X_read` = T::read over a byte list, `X_from_slice` = T::from_slice; proofs:
+   Equiv/ReadValuesLink.v, Equiv/ReadValuesNet.v): the decoded STRUCT (every field), the unread
+   rest and the error kind of `read` are those of `from_slice`, for every byte string; a slice
+   Len error is the reader's UnexpectedEof (eof_of_len).  bytes_ok where a length octet >= 256
+   would send the reader model into a slice-index panic a real u8 cannot reach. *)
+Theorem C06_read_value_ethernet2 : forall bs,
+  Roundtrip.Eth.eth_read bs = eof_of_len (Roundtrip.Eth.eth_from_slice bs).
+Proof. exact Equiv.ReadValuesLink.eth_read_eq_from_slice. Qed.
+Print Assumptions C06_read_value_ethernet2.
+
+Theorem C06_read_value_single_vlan : forall bs,
+  Roundtrip.Vlan.vl_read bs = eof_of_len (Roundtrip.Vlan.vl_from_slice bs).
+Proof. exact Equiv.ReadValuesLink.vl_read_eq_from_slice. Qed.
+Print Assumptions C06_read_value_single_vlan.
+
+(* LinuxSllHeader::read decodes through from_bytes, from_slice through the slice accessors *)
+Theorem C06_read_value_linux_sll : forall bs,
+  Roundtrip.Sll.sll_read bs = eof_of_len (Roundtrip.Sll.sll_from_slice bs).
+Proof. exact Equiv.ReadValuesLink.sll_read_eq_from_slice. Qed.
+Print Assumptions C06_read_value_linux_sll.
+
+(* MacsecHeader::from_slice / ArpPacket::from_slice return the header only: the reader's rest
+   is compared with the bytes behind header_len() / packet_len() *)
+Theorem C06_read_value_macsec : forall bs,
+  Roundtrip.Macsec.mac_read bs =
+  eof_of_len (match Roundtrip.Macsec.mac_from_slice bs with
+              | Roundtrip.Common.Ok h => Roundtrip.Common.Ok (h, drop (Roundtrip.Macsec.mac_header_len h) bs)
+              | Roundtrip.Common.Err e => Roundtrip.Common.Err e
+              end).
+Proof. exact Equiv.ReadValuesLink.mac_read_eq_from_slice. Qed.
+Print Assumptions C06_read_value_macsec.
+
+Theorem C06_read_value_arp : forall bs, bytes_ok bs ->
+  Roundtrip.Arp.arp_read bs =
+  eof_of_len (match Roundtrip.Arp.arp_from_slice bs with
+              | Roundtrip.Common.Ok h => Roundtrip.Common.Ok (h, drop (Roundtrip.Arp.arp_packet_len h) bs)
+              | Roundtrip.Common.Err e => Roundtrip.Common.Err e
+              end).
+Proof. exact Equiv.ReadValuesLink.arp_read_eq_from_slice. Qed.
+Print Assumptions C06_read_value_arp.
+
+Theorem C06_read_value_udp : forall bs,
+  Roundtrip.Udp.udp_read bs = eof_of_len (Roundtrip.Udp.udp_from_slice bs).
+Proof. exact Equiv.ReadValuesNet.udp_read_eq_from_slice. Qed.
+Print Assumptions C06_read_value_udp.
+
+Theorem C06_read_value_ipv6_raw_ext : forall bs, bytes_ok bs ->
+  Roundtrip.RawExt.rx_read bs = eof_of_len (Roundtrip.RawExt.rx_from_slice bs).
+Proof. exact Equiv.ReadValuesNet.rx_read_eq_from_slice. Qed.
+Print Assumptions C06_read_value_ipv6_raw_ext.
+
+Theorem C06_read_value_ip_auth : forall bs, bytes_ok bs ->
+  Roundtrip.Auth.ah_read bs = eof_of_len (Roundtrip.Auth.ah_from_slice bs).
+Proof. exact Equiv.ReadValuesNet.ah_read_eq_from_slice. Qed.
+Print Assumptions C06_read_value_ip_auth.
+
+Theorem C06_read_value_ipv4_exts : forall start bs, bytes_ok bs ->
+  Roundtrip.Exts4.x4_read bs start = eof_of_len (Roundtrip.Exts4.x4_from_slice start bs).
+Proof. exact Equiv.ReadValuesNet.x4_read_eq_from_slice. Qed.
+Print Assumptions C06_read_value_ipv4_exts.
+
+(* ICMPv4: Icmpv4Slice::from_slice wants a timestamp / timestamp reply message (type 13 | 14,
+   code 0) to END the slice (exactly 20 bytes); read takes 20 bytes and leaves the rest.  As the
+   property says, this rule is compared on the slice that ends with the header: outside
+   icmp4_ts_trailing (timestamp message followed by more bytes) plain equality; inside, read
+   = from_slice of the first 20 bytes; the witness shows the exclusion is needed. *)
+Theorem C06_read_value_icmpv4 : forall bs,
+  (Equiv.ReadValuesNet.icmp4_ts_trailing bs = false ->
+   Roundtrip.Icmp4.icmp4_read bs = eof_of_len (Roundtrip.Icmp4.icmp4_from_slice bs)) /\
+  (Equiv.ReadValuesNet.icmp4_is_ts bs = true -> 20 <= len bs ->
+   Roundtrip.Icmp4.icmp4_read bs =
+   match Roundtrip.Icmp4.icmp4_from_slice (take 20 bs) with
+   | Roundtrip.Common.Ok (h, _) => Roundtrip.Common.Ok (h, drop 20 bs)
+   | Roundtrip.Common.Err e => Roundtrip.Common.Err e
+   end).
+Proof.
+  exact (fun bs => conj (Equiv.ReadValuesNet.icmp4_read_eq_from_slice bs)
+                        (Equiv.ReadValuesNet.icmp4_read_eq_from_slice_ts bs)).
+Qed.
+Print Assumptions C06_read_value_icmpv4.
+
+Theorem C06_read_value_icmpv4_ts_refuted :
+  exists bs, Equiv.ReadValuesNet.icmp4_ts_trailing bs = true /\
+    Roundtrip.Icmp4.icmp4_from_slice bs = Roundtrip.Common.Err Roundtrip.Common.ELen /\
+    exists h, Roundtrip.Icmp4.icmp4_read bs = Roundtrip.Common.Ok (h, [99]).
+Proof.
+  exists [13;0; 1;2; 0;7; 0;9; 0;0;0;1; 0;0;0;2; 0;0;0;3; 99].
+  split; [vm_compute; reflexivity|]. split; [vm_compute; reflexivity|].
+  eexists. vm_compute. reflexivity.
+Qed.
+Print Assumptions C06_read_value_icmpv4_ts_refuted.
+
+(* ICMPv6: Icmpv6Slice::from_slice rejects slices longer than u32::MAX, read has no such limit
+   (lengths are unbounded in the model): equality up to that length, and for every byte string
+   read = from_slice of the first 8 bytes *)
+Theorem C06_read_value_icmpv6 : forall bs,
+  (len bs <= 4294967295 ->
+   Roundtrip.Icmp6.icmp6_read bs = eof_of_len (Roundtrip.Icmp6.icmp6_from_slice bs)) /\
+  Roundtrip.Icmp6.icmp6_read bs =
+  eof_of_len (match Roundtrip.Icmp6.icmp6_from_slice (take 8 bs) with
+              | Roundtrip.Common.Ok (h, _) => Roundtrip.Common.Ok (h, drop 8 bs)
+              | Roundtrip.Common.Err e => Roundtrip.Common.Err e
+              end).
+Proof.
+  exact (fun bs => conj (Equiv.ReadValuesNet.icmp6_read_eq_from_slice bs)
+                        (Equiv.ReadValuesNet.icmp6_read_eq_from_slice_prefix bs)).
+Qed.
+Print Assumptions C06_read_value_icmpv6.
+
+(* Ipv6Extensions (and Ipv4Extensions a second time, on C12's own model): C12's value-carrying
+   reader model (ExtChain/ReadModel.v, reader = C16's) -- cited: whenever from_slice accepts,
+   `read` over a Cursor returns the same struct and next header number, has consumed exactly the
+   bytes from_slice consumed, and what is left to read is from_slice's rest
+   (= C12_read_cursor; the rejecting side is C06_read_eq_slice above) *)
+Theorem C06_read_value_ipv6_exts : forall first bs e n rest, bytes_ok bs ->
+  ExtChain.Model.from_slice first bs = ExtChain.Model.Ok (e, n, rest) ->
+  exists s', ExtChain.ReadModel.read6 false first (IoFault.Model.mk_rstate (ExtChain.ReadModel.cursor bs) None) =
+               (IoFault.Model.QOk (e, n), IoFault.Model.mk_rstate s' None) /\
+             IoFault.Spec.src_data s' = rest /\ IoFault.Spec.src_pulled s' + len rest = len bs.
+Proof. exact ExtChain.ReadProofs.read6_cursor. Qed.
+Print Assumptions C06_read_value_ipv6_exts.
+
+Example C06_ex_read_value_more :
+  (exists h, Roundtrip.Sll.sll_read [0;4; 0;1; 0;6; 1;2;3;4;5;6;0;0; 8;0; 7] = Roundtrip.Common.Ok (h, [7]) /\
+             Roundtrip.Sll.sll_from_slice [0;4; 0;1; 0;6; 1;2;3;4;5;6;0;0; 8;0; 7] = Roundtrip.Common.Ok (h, [7]) /\
+             Roundtrip.Sll.sll_packet_type h = 4) /\
+  (exists h, Roundtrip.Udp.udp_read [0;1; 0;2; 0;9; 3;4; 5] = Roundtrip.Common.Ok (h, [5]) /\
+             Roundtrip.Udp.udp_length h = 9) /\
+  Roundtrip.Eth.eth_read [1;2;3] = Roundtrip.Common.Err Roundtrip.Common.EIo /\
+  Roundtrip.Eth.eth_from_slice [1;2;3] = Roundtrip.Common.Err Roundtrip.Common.ELen /\
+  (exists h, Roundtrip.Icmp4.icmp4_read [8;0; 1;2; 0;7; 0;9; 99] = Roundtrip.Common.Ok (h, [99]) /\
+             Roundtrip.Icmp4.icmp4_from_slice [8;0; 1;2; 0;7; 0;9; 99] = Roundtrip.Common.Ok (h, [99]) /\
+             Equiv.ReadValuesNet.icmp4_ts_trailing [8;0; 1;2; 0;7; 0;9; 99] = false).
+Proof.
+  split; [eexists; repeat split; vm_compute; reflexivity|].
+  split; [eexists; repeat split; vm_compute; reflexivity|].
+  split; [vm_compute; reflexivity|]. split; [vm_compute; reflexivity|].
+  eexists; repeat split; vm_compute; reflexivity.
+Qed.
+
+(* non-vacuity of C06_lax_ip_boundary_slice_eq_struct: the hypotheses hold for ex_ip4_ah and both
+   sides accept with the same stop error *)
+Example C06_ex_lax_boundary :
+  bytes_okb ex_ip4_ah = true /\ 20 <= s_len (0, ex_ip4_ah) /\
+  match LaxIpHeaders.from_slice_lax (0, ex_ip4_ah), Parse.HdrLaxCut.LaxCut.ip_from_slice true (0, ex_ip4_ah) with
+  | Ok (_, p, st), Ok (i, st') => p = LaxIpSlice.payload i /\ st = st' /\ st <> None
+  | _, _ => False
+  end.
+Proof. vm_compute. repeat split; try reflexivity; discriminate. Qed.
